@@ -212,13 +212,70 @@ void markValid(std::vector<cpuinfo>& info) {
   }
 }
 
+#ifdef GALOIS_VERIF
+//! Synthesise the cpuinfo records of a machine described by the environment
+//! variable GALOIS_VERIF_TOPO instead of probing the real one.
+//!   "4,4,4,4"   four sockets with four single-threaded cores each
+//!   "3,5"       uneven sockets
+//!   "smt:2x2x2" 2 sockets x 2 cores x 2 hardware threads; OS processor ids
+//!               enumerate all first hardware threads before the second ones
+//! Everything below the probe (sorting, SMT marking, renumbering, leaders)
+//! is the unmodified code. Returns false if the variable is not set.
+bool verifSyntheticCPUInfo(std::vector<cpuinfo>& vals) {
+  std::string spec;
+  if (!galois::substrate::EnvCheck("GALOIS_VERIF_TOPO", spec) || spec.empty())
+    return false;
+  unsigned proc = 0;
+  if (spec.compare(0, 4, "smt:") == 0) {
+    unsigned S = 0, C = 0, T = 0;
+    if (sscanf(spec.c_str() + 4, "%ux%ux%u", &S, &C, &T) != 3 || !S || !C || !T)
+      GALOIS_DIE("bad GALOIS_VERIF_TOPO ", spec);
+    for (unsigned t = 0; t < T; ++t)
+      for (unsigned s = 0; s < S; ++s)
+        for (unsigned c = 0; c < C; ++c)
+          vals.push_back(cpuinfo{proc++, s, C * T, c, C, s, true, false});
+  } else {
+    std::vector<unsigned> perSocket;
+    size_t pos = 0;
+    while (pos <= spec.size()) {
+      size_t e = spec.find(',', pos);
+      if (e == std::string::npos)
+        e = spec.size();
+      int n = atoi(spec.substr(pos, e - pos).c_str());
+      if (n <= 0)
+        GALOIS_DIE("bad GALOIS_VERIF_TOPO ", spec);
+      perSocket.push_back(n);
+      pos = e + 1;
+    }
+    for (unsigned s = 0; s < perSocket.size(); ++s)
+      for (unsigned c = 0; c < perSocket[s]; ++c)
+        vals.push_back(
+            cpuinfo{proc++, s, perSocket[s], c, perSocket[s], s, true, false});
+  }
+  return true;
+}
+#endif
+
 galois::substrate::HWTopoInfo makeHWTopo() {
   galois::substrate::MachineTopoInfo retMTI;
 
+#ifdef GALOIS_VERIF
+  std::vector<cpuinfo> info;
+  if (verifSyntheticCPUInfo(info)) {
+    std::sort(info.begin(), info.end());
+    markSMT(info);
+  } else {
+    info = parseCPUInfo();
+    std::sort(info.begin(), info.end());
+    markSMT(info);
+    markValid(info);
+  }
+#else
   auto info = parseCPUInfo();
   std::sort(info.begin(), info.end());
   markSMT(info);
   markValid(info);
+#endif
 
   info.erase(std::partition(info.begin(), info.end(),
                             [](const cpuinfo& c) { return c.valid; }),
